@@ -14,7 +14,6 @@ CORRESP. the Coq model PM.Choice against the real code on generated inputs, comp
 """
 import itertools
 import json
-import os
 
 import vlib
 
@@ -187,9 +186,14 @@ def check_case(case):
     return None
 
 
-def shrink(case):
-    """Greedy shrinking of a failing input (any failure counts)."""
+def shrink(case, budget=25.0):
+    """Greedy shrinking of a failing input (any failure counts), within a time budget."""
+    import time
+    deadline = time.time() + budget
+
     def fails(c):
+        if time.time() > deadline:
+            return False
         try:
             return check_case(c) is not None
         except Exception:
@@ -524,7 +528,7 @@ def search(ctx):
     def record(case):
         if len(failing) >= 8:
             return
-        small = shrink(case)
+        small = shrink(case) if len(failing) < 3 else case
         r = check_case(small) or check_case(case)
         if r:
             r["shrunk_from"] = case
